@@ -13,8 +13,8 @@ ROOT = os.path.dirname(os.path.dirname(os.path.abspath(__file__)))
 src, i, sid, props = sys.argv[1], sys.argv[2], sys.argv[3], sys.argv[4:]
 patch, demo, meta = (os.path.join(src, f"{n}{i}.{e}") for n, e in (("patch", "diff"), ("demo", "py"), ("meta", "json")))
 wt = tempfile.mkdtemp(prefix="cs-", dir="/tmp"); os.rmdir(wt)
-subprocess.run(["git", "-C", "/repo", "worktree", "add", "-q", "--detach", wt, "HEAD"], check=True)
-rec = {"seed_id": sid, "confirmed_at_repo_commit": subprocess.run(["git", "-C", "/repo", "rev-parse", "--short", "HEAD"], capture_output=True, text=True).stdout.strip()}
+subprocess.run(["git", "-C", "/repo", "worktree", "add", "-q", "--detach", wt, os.environ.get("CONFIRM_BASE", "HEAD")], check=True)
+rec = {"seed_id": sid, "confirmed_at_repo_commit": subprocess.run(["git", "-C", "/repo", "rev-parse", "--short", os.environ.get("CONFIRM_BASE", "HEAD")], capture_output=True, text=True).stdout.strip()}
 try:
     shutil.copytree("/repo/sigpyproc.egg-info", os.path.join(wt, "sigpyproc.egg-info"))
     env = dict(os.environ, PYTHONPATH=wt, NUMBA_CACHE_DIR=os.path.join(wt, ".nbcache"), NUMBA_NUM_THREADS=os.environ.get("CONFIRM_THREADS", "4"))
